@@ -97,14 +97,19 @@ def table_check(prop, repo, tier, seed, extra):
         extra["failures"].append({"name": "operator-table/crash", "crash": True, "detail": p.stderr[-1500:]})
         return
     rows = json.loads(p.stdout)
-    bad = [r for r in rows if not r["ok"]]
+    bad = [r for r in rows if r.get("status") == "mismatch"]
+    unrec = [r for r in rows if r.get("status") == "unrecognised"]
     extra["tables"].append({"what": "the 35 operator dunders installed on the real Stream class: template and operator function (introspection)",
-                            "rows": len(rows), "holding": len(rows) - len(bad), "exhaustive": True})
+                            "rows": len(rows), "holding": len(rows) - len(bad) - len(unrec), "not_recognised": len(unrec), "exhaustive": True})
     if len(rows) != 35:
         extra["failures"].append({"name": "operator-table/row-count", "input": None, "message": "%d rows, the property names 35 operator methods" % len(rows)})
     for r in bad:
         extra["failures"].append({"name": "operator-table/%s" % r["dunder"], "input": None,
                                   "message": "Stream.%s: %s" % (r["dunder"], r.get("why"))})
+    if unrec:
+        extra.setdefault("undecided", []).append({"contract": binary.name, "count": len(unrec),
+                                                  "message": "operator table: %d dunders are installed in a way the introspection does not recognise (e.g. %s: %s)" % (
+                                                      len(unrec), unrec[0]["dunder"], unrec[0].get("why"))})
 
 
 from pyvc.bounded import bounded_check
